@@ -16,6 +16,7 @@ def mu (c : Cfg) (s : State) : Nat :=
 theorem mu_decreases (c : Cfg) (s : State) (a : Act) (s' : State) (hs : Step c s a s') :
     mu c s' < mu c s := by
   cases hs <;> simp_all [mu, frank, crank] <;> try omega
+  case start hj _ => have : 0 < s.pending.length := List.length_pos_of_mem hj; omega
   case finish hj => have := List.length_erase_of_mem hj; have : 0 < s.running.length := List.length_pos_of_mem hj; omega
 
 /-- items the pool owes a result for, as seen from the consumer side -/
@@ -97,15 +98,13 @@ theorem prog_step (c : Cfg) (s : State) (a : Act) (s' : State) (hph : PhaseInv s
       exact g1 ha i (by simpa [hf, holdIdx, qidx] using hi)
     · intro hj ht; have := g2 hj ht; simp [hf, futurePuts] at this ⊢; omega
   | start hp hl =>
-    rename_i j rest
+    rename_i j
     refine ⟨?_, g2⟩
     intro ha i hi
     rcases g1 ha i hi with h | h | h
-    · rw [hp] at h
-      simp only [List.mem_cons] at h
-      rcases h with h | h
-      · subst h; exact Or.inr (Or.inl (by simp))
-      · exact Or.inl h
+    · by_cases hij : i = j
+      · subst hij; exact Or.inr (Or.inl (by simp))
+      · exact Or.inl ((List.mem_erase_of_ne hij).mpr h)
     · exact Or.inr (Or.inl (by simp [h]))
     · exact Or.inr (Or.inr h)
   | finish hj =>
@@ -225,9 +224,9 @@ theorem progress_of_inv (c : Cfg) (hcap : 1 ≤ c.cap) (hconc : 1 ≤ c.conc) (s
       cases hp : s.pending with
       | nil => simp [hr, hp] at h
       | cons j rest =>
-        refine ⟨.start, ?_⟩
+        refine ⟨.start j, ?_⟩
         simp only [step, hp, hr, List.length_nil]
-        rw [if_pos (by omega)]; rfl
+        rw [if_pos ⟨by simp, by omega⟩]; rfl
   cases hc : s.cpc with
   | idle =>
     cases hq : s.queue with
